@@ -184,7 +184,7 @@ class TEBDWorld(World):
     NAME = "tebd"
     LEVEL = "exploration"
     SIM_TIME_UNIT = "physical evolution time (sum over evolutions)"
-    RUNS = {"quick": 6000, "thorough": 150000}
+    RUNS = {"quick": 10000, "thorough": 250000}
     WALL_CAP = {"quick": 900, "thorough": 3300}
     SHRINK_BUDGET = 80
     RULE = (
